@@ -283,16 +283,14 @@ func (t *Term) IsFalse() bool { return t.Op == OConst && t.Sort == SBool && t.K 
 
 // Var returns the (unique) variable of that name.
 func Var(name string, sort Sort, w uint8) *Term {
-	if t, ok := ts.byName[name]; ok {
-		if t.Sort != sort || t.W != w {
-			panic(fmt.Sprintf("symbolic input %q redeclared with a different sort", name))
-		}
+	key := fmt.Sprintf("%s/%d/%d", name, sort, w)
+	if t, ok := ts.byName[key]; ok {
 		return t
 	}
 	t := &Term{Op: OVar, Sort: sort, W: w, ID: len(ts.all), Name: name, K: uint64(len(ts.vars)), NonBV: sort == SF32 || sort == SF64, UB: mask(w)}
 	ts.all = append(ts.all, t)
 	ts.vars = append(ts.vars, t)
-	ts.byName[name] = t
+	ts.byName[key] = t
 	return t
 }
 
